@@ -1,6 +1,6 @@
 (* C15 -- property theorems only.  Proofs live in C15/Proofs*.v. *)
 From Coq Require Import NArith List.
-From DV Require Import Base.Outcome C15.Gen C15.Model C15.Proofs C15.ProofsSeq.
+From DV Require Import Base.Outcome C15.Gen C15.Model C15.Proofs C15.ProofsSeq C15.ProofsNet C15.ProofsDemux.
 Import ListNotations.
 Local Open Scope N_scope.
 
@@ -36,3 +36,87 @@ Theorem C15_insert_full_iff : forall (T : Type) (q : queries T) r,
   q_inv q -> (exists q', q_insert q r = Ok (q', None)) <-> 32768 <= q_count q.
 Proof. exact @insert_full_iff. Qed.
 Print Assumptions C15_insert_full_iff.
+
+Theorem C15_is_answer_sound : forall (r : req) (a : msg), is_answer r a = true -> answers r a.
+Proof. exact is_answer_sound. Qed.
+Print Assumptions C15_is_answer_sound.
+
+Theorem C15_is_answer_complete : forall (r : req) (a : msg), msg_wf a -> answers r a -> is_answer r a = true.
+Proof. exact is_answer_complete. Qed.
+Print Assumptions C15_is_answer_complete.
+
+Theorem C15_demux_sound : forall cs idle (evs : list sevent) s c m,
+  distinct_callers evs -> s_run cs idle evs = Ok s ->
+  In (c, false, DAnswer m) (st_log s) ->
+  exists qs, In (c, m_id m, qs) (st_sent s) /\ answers (mkReq (m_id m) qs) m /\
+    (forall i' qs', In (c, i', qs') (st_sent s) -> i' = m_id m /\ qs' = qs).
+Proof. exact demux_sound. Qed.
+Print Assumptions C15_demux_sound.
+
+Theorem C15_exactly_once : forall cs idle (evs : list sevent),
+  distinct_callers evs ->
+  exists s, s_run cs idle evs = Ok s /\
+    forall c, pending c (st_q s) + tcount c (st_log s) = inb c (submitted evs).
+Proof. exact exactly_once. Qed.
+Print Assumptions C15_exactly_once.
+
+Theorem C15_down_completes_all : forall cs idle (evs : list sevent) s,
+  distinct_callers evs -> s_run cs idle evs = Ok s -> st_conn s <> COpen ->
+  forall c, tcount c (st_log s) = inb c (submitted evs).
+Proof. exact down_completes_all. Qed.
+Print Assumptions C15_down_completes_all.
+
+Theorem C15_dgram_sound : forall (retries T : N) (qs : list N) (atts : list attempt) k t m s,
+  dgram_run retries T qs atts = (DOk k t m, s) ->
+  exists a, nth_error atts (N.to_nat k) = Some a /\
+    answers (mkReq (a_id a) qs) m /\
+    (exists off, In (off, PMsg m) (a_pkts a) /\ off <= T).
+Proof. exact dgram_sound. Qed.
+Print Assumptions C15_dgram_sound.
+
+Theorem C15_dgram_terminates_within : forall (retries T : N) (qs : list N) (atts : list attempt) res s,
+  dgram_run retries T qs atts = (res, s) ->
+  s <= 1 + retries /\
+  match res with
+  | DOk _ t _ => t <= (1 + retries) * T
+  | DErr e t => t <= (1 + retries) * T /\ (e = 4 -> t = (1 + retries) * T /\ s = 1 + retries)
+  end.
+Proof. exact dgram_terminates_within. Qed.
+Print Assumptions C15_dgram_terminates_within.
+
+Theorem C15_dgram_retries_on_timeout : forall (retries T : N) (qs : list N) a rest,
+  a_fault a = FNone ->
+  recv_loop T (mkReq (a_id a) qs) 0 (a_pkts a) = RTimeout ->
+  dgram_run retries T qs (a :: rest) = dgram_loop T qs (N.to_nat retries) 1 T 1 rest.
+Proof. exact dgram_retries_on_timeout. Qed.
+Print Assumptions C15_dgram_retries_on_timeout.
+
+Theorem C15_tc_falls_back : forall (m : msg) (tcp : tres),
+  m_tc m = true -> ds_result (TOk m) tcp = (tcp, true).
+Proof. exact tc_falls_back. Qed.
+Print Assumptions C15_tc_falls_back.
+
+Theorem C15_tc_never_from_datagram : forall (udp tcp : tres) (m : msg),
+  ds_result udp tcp = (TOk m, false) -> udp = TOk m /\ m_tc m = false.
+Proof. exact tc_never_from_datagram. Qed.
+Print Assumptions C15_tc_never_from_datagram.
+
+(* stream::Config::set_response_timeout: respected exactly when the setter
+   assigns the field Transport::run reads for single-response requests (T1
+   item set_rt_assigns_single); refuted for the code where it does not *)
+Theorem C15_response_timeout_respected_if_assigned :
+  set_rt_assigns_single = true -> response_timeout_respected.
+Proof. exact response_timeout_respected_if_assigned. Qed.
+Print Assumptions C15_response_timeout_respected_if_assigned.
+
+Theorem C15_response_timeout_refuted :
+  set_rt_assigns_single = false ->
+  effective_timeout (set_response_timeout scfg_default 60) false = 19000 /\ ~ response_timeout_respected.
+Proof. exact response_timeout_refuted. Qed.
+Print Assumptions C15_response_timeout_refuted.
+
+(* the table the driver starts capacity cases from is the one the inserts produce *)
+Theorem C15_fill_state : forall (vals : list N),
+  lenN vals <= 32768 -> exists tr, q_run (map OIns vals) = Ok (c15_prefill vals, tr).
+Proof. exact fill_state_run. Qed.
+Print Assumptions C15_fill_state.
